@@ -161,6 +161,8 @@ func init() {
 			{"loop-accumulator", "a boolean that summarises a loop (some element needs X / all elements satisfy Y) and is read after it is accumulated monotonically - set to a constant, combined with its previous value, assigned under a test of itself, or followed by leaving the loop - never overwritten by the value computed for the current element only", func(c *Ctx) { ruleLoopAccumulator(c, "pkg/vm", "pkg/vm/stackitem") }},
 			{"dead-update", "no struct-typed local is assigned and field-updated without ever being read, passed on or returned (a modified copy that is lost while the stale original goes on being used)", func(c *Ctx) { ruleDeadUpdate(c, "pkg/vm", "pkg/vm/stackitem") }},
 			{"check-all-loop", "a loop that rejects on a property of each element with an error return is not left early with a break (the elements after it would escape the check)", func(c *Ctx) { ruleCheckAllLoop(c, "pkg/vm", "pkg/vm/stackitem") }},
+			{"modpow-sign", "the Euclidean-to-truncated correction of MODPOW (subtracting |modulus|) is gated by the parity test of the exponent and the sign tests: an even power of a negative base is positive and must not be shifted", ruleModPowSign},
+			{"reset-complete", "every VM field written during execution is re-initialised by VM.Reset: the VM is reused for all transactions of a block, and a pending exception that carries over makes the next transaction's ENDFINALLY re-throw it", ruleResetComplete},
 			{"opcode-tables", "every Opcode constant is valid in the decoder table, dispatched by vm.execute (arm or PUSHINT range test, faulting default), priced in fee.coefficients, and operand usage agrees between decoder and dispatcher", ruleOpcodeTables},
 			{"bigint-ctor", "conversions to *stackitem.BigInteger exist only in package stackitem, each after CheckIntegerSize or from a <=64-bit source (every integer result passes the 256-bit range check)", ruleBigintCtor},
 			{"byte-moves", "bytes are moved between buffers that may be the same stack item only by the builtin copy (overlap-safe), never by an element loop", ruleByteMoves},
